@@ -113,7 +113,7 @@ def render_cfg(cfg, scratch, libpath=None):
     if cfg.get("logs"):
         out.append("logs {")
         for name, f in cfg["logs"]:
-            out.append(' %s "file:%s/%s"' % (conf_quote(name), scratch, f))
+            out.append(' %s "file:%s"' % (conf_quote(name), f))     # relative: the daemon's cwd is the scratch dir
         out.append("}")
     return "\n".join(out) + "\n"
 
@@ -437,6 +437,9 @@ class Gen:
             "%d " % dc + " ".join("w%d" % k for k in range(25)),
             "%d Z " % lc + " ".join("w%d" % k for k in range(25)),
             "%d Q %s" % (dc, word(r, r.choice([100, 5000, 20000]))),
+            # lines with only an id / only blanks, commands lacking their parameter
+            "%d" % lc, "%d" % dc, "   ", "\t", "-1", "%d " % lc, "%d N" % lc, "%d n" % lc, "%d P" % lc,
+            "%d N" % dc, "%d P" % dc, "-1 N", "-1 P", "-1 n",
         ])
 
 
